@@ -148,6 +148,16 @@ CLAIMED["C12"] = dict(
          "real keys; two recorded findings (IFR CMAC table register file).",
     ref="DESIGN.md section 3 C12")
 
+CLAIMED["C06"] = dict(
+    technique="symbolic execution of the real AHAB image / container / image-array-entry code (image bytes, addresses, "
+              "flags, metadata, versions as solver variables; hash an uninterpreted function) compared with an independent "
+              "reading of the exported bytes; parse(export) equality, own verifier verdicts and a corrupted image byte are "
+              "decided by z3 QF_BV / QF_UFBV",
+    note="Decided for unsigned containers (SRK set none) and for the flags word of signed ones. NOT decided: container "
+         "signatures, SRK table hash, certificates, key blobs and image decryption (real asymmetric crypto behind the "
+         "cryptography API, no AHAB key stubs in this round).",
+    ref="DESIGN.md section 3 C06")
+
 NOT_APPLICABLE = {
     "C18": "quantifies over OS-level crash points of a pickle file and over process schedules around a FileLock; the "
            "deciding code is pickle (C) / the file system / the scheduler - no SPSDK arithmetic or layout to encode; "
